@@ -1,5 +1,175 @@
+// Forced interleavings of concurrent calls for C01 (see verif_c01_test.go).
+// A schedule is a list of (thread, dt): the virtual clock advances by dt and the thread
+// performs its next action:
+//
+//	start  - the call runs up to the point where the breaker hands control to the caller:
+//	         a rejected call (or a done context) runs to completion (accept, markDrop,
+//	         fallback); an admitted Do* call parks inside its request; an admitted Allow
+//	         returns its promise;
+//	finish - the parked request returns its outcome (the breaker then marks success or
+//	         failure and the call returns) / the promise is resolved.
+//
+// The gates sit in the user callbacks only; the controller waits on channels, so the
+// implementation executes exactly the given interleaving of accept and mark steps.
 package breaker
 
-func verifRunConc(c verifC01Case) verifC01Out {
-	return verifC01Out{ID: c.ID, Err: "concurrent schedules not implemented"}
+import (
+	"context"
+	"fmt"
+	"time"
+
+	"github.com/zeromicro/go-zero/core/mathx"
+	"github.com/zeromicro/go-zero/core/timex"
+)
+
+type verifThread struct {
+	state   int // 0 not started, 1 parked, 2 returned
+	parked  chan struct{}
+	release chan struct{}
+	done    chan struct{}
+	promise Promise
+	res     int64
+	req     int64
+	fb      int64
+	fbArg   int64
+}
+
+func verifRunConc(c verifC01Case) (out verifC01Out) {
+	out.ID = c.ID
+	defer func() {
+		if r := recover(); r != nil {
+			out.Err = fmt.Sprintf("executor panic: %v", r)
+		}
+	}()
+	timex.SetFakeNow(time.Duration(c.Base))
+	brk := NewBreaker()
+	gb, err := verifUnwrap(brk)
+	if err != nil {
+		out.Err = err.Error()
+		return
+	}
+	src := &verifC01Src{}
+	gb.proba = mathx.NewProbaWithSource(src)
+	cancelled, cancel := context.WithCancel(context.Background())
+	cancel()
+	acceptable := func(err error) bool { return err == nil || err == verifErrA }
+
+	ths := make([]*verifThread, len(c.Calls))
+	for i := range ths {
+		ths[i] = &verifThread{parked: make(chan struct{}), release: make(chan struct{}), done: make(chan struct{})}
+	}
+
+	start := func(tid int) {
+		k := c.Calls[tid]
+		entry, ctxm, outc, m := k[0], k[1], k[2], k[5]
+		t := ths[tid]
+		src.next = m
+		ctx := context.Background()
+		if ctxm == 2 {
+			ctx = cancelled
+		}
+		if entry >= 4 {
+			p, err := verifAllow(brk, ctxm, ctx)
+			t.res = verifClass(err)
+			if err == nil {
+				t.promise = p
+				t.state = 1
+			} else {
+				t.state = 2
+			}
+			return
+		}
+		pv := &verifPanic{n: tid}
+		req := func() error {
+			t.req++
+			t.parked <- struct{}{}
+			<-t.release
+			switch outc {
+			case 1:
+				return verifErrU
+			case 2:
+				return verifErrA
+			case 3:
+				panic(pv)
+			}
+			return nil
+		}
+		fb := func(err error) error {
+			t.fb++
+			if err == ErrServiceUnavailable {
+				t.fbArg = 1
+			}
+			return verifErrFB
+		}
+		go func() {
+			defer close(t.done)
+			defer func() {
+				if r := recover(); r != nil {
+					if r == any(pv) {
+						t.res = resPanic
+					} else {
+						t.res = resOther
+					}
+				}
+			}()
+			t.res = verifClass(verifInvoke(brk, entry, ctxm, ctx, req, fb, acceptable))
+		}()
+		select {
+		case <-t.parked:
+			t.state = 1
+		case <-t.done:
+			t.state = 2
+		}
+	}
+	finish := func(tid int) {
+		t := ths[tid]
+		if c.Calls[tid][0] >= 4 {
+			if c.Calls[tid][0] == 4 {
+				t.promise.Accept()
+			} else {
+				t.promise.Reject("verif")
+			}
+			t.res = resNil
+		} else {
+			close(t.release)
+			<-t.done
+		}
+		t.state = 2
+	}
+
+	for _, a := range c.Conc.Sched {
+		tid, dt := int(a[0]), a[1]
+		timex.AdvanceFake(time.Duration(dt))
+		src.draws = 0
+		if tid >= 0 && tid < len(ths) {
+			switch ths[tid].state {
+			case 0:
+				start(tid)
+			case 1:
+				finish(tid)
+			}
+		}
+		s := verifRead(gb)
+		last := int64(gb.lastPass.Load())
+		if last != 0 {
+			last -= c.Base
+		} else {
+			last = -1
+		}
+		out.Obs = append(out.Obs, []int64{src.draws, last, s.acc, s.tot, s.failing, s.working, s.fail, s.drop})
+	}
+	// per-thread observations as of the end of the schedule, then let parked calls go
+	for _, t := range ths {
+		res := t.res
+		if t.state != 2 {
+			res = -1
+		}
+		out.Obs = append(out.Obs, []int64{int64(t.state), res, t.req, t.fb, t.fbArg})
+	}
+	for tid, t := range ths {
+		if t.state == 1 {
+			finish(tid)
+		}
+	}
+	return
 }
